@@ -207,6 +207,43 @@ theorem detect_two_bits_after_field (mem : Bool) (feat c0 c1 c2 c3 : UInt8) (pre
     exact key _ _ h.symm
   exact crc_two_bits_ne A.length mid.length post.length a1 a2 hmid hz
 
+/-- **One flipped bit of the stored checksum word together with one flipped bit of the data** (fewer than 2^28 bytes
+after it) is reported as corrupted.  The hypothesis on the field says that the stored 32-bit word differs in exactly
+bit `k`. -/
+theorem detect_field_bit_and_data_bit (mem : Bool) (feat c0 c1 c2 c3 d0 d1 d2 d3 : UInt8) (pre post : Bytes) (x : UInt8)
+    (a : Fin 8) (k : Fin 32) (hf : feat.toNat &&& Gen.SB_BINARY_FEATURE_CRC32 ≠ 0) (hpost : post.length < 2 ^ 28)
+    (hflip : le32 [d0, d1, d2, d3] = le32 [c0, c1, c2, c3] ^^^ basis k.val)
+    (hacc : init mem ([0x73, 0x6b, 0x79, 0x62, 2, feat, c0, c1, c2, c3] ++ (pre ++ [x] ++ post)) ≠ .error .ecorrupted) :
+    init mem ([0x73, 0x6b, 0x79, 0x62, 2, feat, d0, d1, d2, d3] ++ (pre ++ [x ^^^ UInt8.ofNat (2 ^ a.val)] ++ post))
+      = .error .ecorrupted := by
+  rw [accept_rule mem feat d0 d1 d2 d3 _ hf]
+  rw [Ne, accept_rule mem feat c0 c1 c2 c3 _ hf, Ne, Classical.not_not] at hacc
+  rw [hflip, hacc]
+  have h1 : Spec.fileCrc ([0x73, 0x6b, 0x79, 0x62, 2, feat, c0, c1, c2, c3] ++ (pre ++ [x] ++ post))
+      = Spec.crc 0 (([0x73, 0x6b, 0x79, 0x62, 2, feat, 0, 0, 0, 0] ++ pre) ++ [x] ++ post) := by
+    unfold Spec.fileCrc zeroCrcField
+    simp
+  have h2 : Spec.fileCrc ([0x73, 0x6b, 0x79, 0x62, 2, feat, d0, d1, d2, d3] ++ (pre ++ [x ^^^ UInt8.ofNat (2 ^ a.val)] ++ post))
+      = Spec.crc 0 (([0x73, 0x6b, 0x79, 0x62, 2, feat, 0, 0, 0, 0] ++ pre) ++ [x ^^^ UInt8.ofNat (2 ^ a.val)] ++ post) := by
+    unfold Spec.fileCrc zeroCrcField
+    simp
+  rw [h1, h2]
+  generalize ([0x73, 0x6b, 0x79, 0x62, 2, feat, 0, 0, 0, 0] ++ pre : Bytes) = A
+  have hx : A ++ [x ^^^ UInt8.ofNat (2 ^ a.val)] ++ post
+      = xorBytes (A ++ [x] ++ post) (zeros A.length ++ [UInt8.ofNat (2 ^ a.val)] ++ zeros post.length) := by
+    rw [xorBytes_append _ _ _ _ (by simp [zeros]), xorBytes_append _ _ _ _ (by simp [zeros]), xorBytes_zeros, xorBytes_zeros]
+    rfl
+  rw [hx, crc_of_corrupted _ _ (by simp [zeros])]
+  intro h
+  -- cancel the common part: the single-bit word would equal the checksum of the single-bit data pattern
+  have key : ∀ (u v w : BitVec 32), u ^^^ v = u ^^^ w → v = w := by
+    intro u v w huv
+    have h3 := congrArg (u ^^^ ·) huv
+    simp only [← BitVec.xor_assoc, BitVec.xor_self, BitVec.zero_xor] at h3
+    exact h3
+  have := key _ _ _ h
+  exact crc_one_bit_ne_basis A.length post.length a k hpost this.symm
+
 /-! ### non-vacuity -/
 
 /-- a concrete checksummed file (header + one comment block `03 01 00 41`) whose stored value
